@@ -967,7 +967,9 @@ class Interp:
                 res = self.call_function(b, [SV('ref', r, cls=cls)], {}, None)
                 return self.truthy(res)
             if ln is not None:
-                raise Unsupported('__len__ truthiness')
+                # truthiness through __len__: run the method (by body or by contract) and compare with 0
+                res = self.call_function(ln, [SV('ref', r, cls=cls)], {}, None)
+                return self.as_int(res) != 0
         return z3.BoolVal(True)
 
     def to_bool_sv(self, v: SV) -> SV:
@@ -2722,6 +2724,17 @@ class Interp:
         if T[0] == 'int':
             return mk_int(e)
         return self.unbox(e, T)
+
+    def call_symbolic_class_method(self, f: SV, args, kwargs) -> SV:
+        """`R.render(x)` where R is a class *value* (the renderer class a database is configured with): nothing is
+        known about what an arbitrary renderer class does, so the result is named by the abstract function
+        render_via(R, x) — a function of the class value, the argument and the heap.  Assumed (A-RENDERER): a
+        renderer class's `render` does not modify the model (C16.B.purity checks the default ones)."""
+        if kwargs or f.py != 'render' or len(args) != 1:
+            raise Unsupported(f'call of {f.py} on a symbolic class')
+        self.st.notes.append('A-RENDERER: render of a configured (symbolic) renderer class is an uninterpreted pure '
+                             'function render_via(class, model, heap)')
+        return self.call_abstract(('render_via', 'str', True), [SV('val', f.e, T=('clsobj',)), args[0]])
 
     def box_source(self, src: SV):
         return self.box(src)
